@@ -449,11 +449,16 @@ def _obligations(tier, seed):
 
 def obligations(tier, seed):
     from . import conform
-    from .c08 import ob_chained, CMPS
+    from .c08 import ob_chained, ob_method, CMPS
     # "an output variable used in an antecedent sees exactly the contributions accumulated so far" under the activation methods that
     # decide rule by rule: rules of one block reading terms that earlier rules of the same activation concluded (harness shared with C08)
     chained = []
     for method, cmp in [("General", None), ("First", None), ("Last", None)] + [("Threshold", c) for c in ((">", "<=") if tier == "quick" else CMPS)]:
         nm = f"same-block-chain/{method}{cmp or ''}"
         chained.append((nm, ob_chained(method, cmp, label=nm, prop=PROPERTY)))
+    # "the rules selected by its activation method", call after call on the same engine: two successive activations of one block with
+    # fresh degrees (a method that reorders or caches the block's rules selects differently the second time; harness shared with C08)
+    for method in ("First", "Last", "Highest", "Lowest"):
+        nm = f"activation-twice/{method}/N3"
+        chained.append((nm, ob_method(method, 3, (True,) * 3, (True,) * 3, None, rounds=2, label=nm, prop=PROPERTY)))
     return _obligations(tier, seed) + chained + conform.obligations(PROPERTY, tier)
